@@ -525,6 +525,13 @@ def _history_cases(tier, rng):
         cyc = rng.sample(roots, k)
         yield {"dag": d, "cache_type": rng.choice(("simple", "lru", "hybrid")),
                "perm": {a: b for a, b in zip(cyc, cyc[1:] + cyc[:1])}, "how": rng.choice(("pipeline", "pipeline", "functions"))}
+        # ... and a permutation of the names of outputs that no function consumes (the cache is keyed by output names too)
+        consumed = {q for f in d["funcs"] for q in f["params"]}
+        free = sorted(o for f in d["funcs"] if len(f["outputs"]) == 1 for o in f["outputs"] if o not in consumed)
+        if len(free) >= 2:
+            oc = rng.sample(free, rng.randint(2, len(free)))
+            yield {"dag": d, "cache_type": rng.choice(("simple", "lru", "hybrid", "disk")),
+                   "perm": {}, "out_perm": {a: b for a, b in zip(oc, oc[1:] + oc[:1])}, "how": "pipeline"}
 
 
 def _check_history(case):
@@ -532,8 +539,22 @@ def _check_history(case):
     b -> a): the pipeline obtained computes the original's values up to that renaming, for every input."""
     d, perm = case["dag"], case["perm"]
     names = [f["name"] for f in d["funcs"]]
+    import shutil
+    import tempfile
+    out_perm = case.get("out_perm") or {}
+    tmp = tempfile.mkdtemp(prefix="vf_c10h_") if case["cache_type"] == "disk" else None
+    kw = {"cache_kwargs": {"cache_dir": tmp, "lru_shared": False}} if tmp else \
+        ({"cache_kwargs": {"shared": False}} if case["cache_type"] in ("lru", "hybrid") else {})
     try:
-        p = dag.build(d, cache_type=case["cache_type"], cached=set(names))
+        return _check_history_in(case, d, perm, out_perm, names, kw)
+    finally:
+        if tmp:
+            shutil.rmtree(tmp, ignore_errors=True)
+
+
+def _check_history_in(case, d, perm, out_perm, names, kw):
+    try:
+        p = dag.build(d, cache_type=case["cache_type"], cached=set(names), **kw)
     except Exception as e:  # noqa: BLE001
         return [f"construction raised {type(e).__name__}"]
     progs.set_log(None)
@@ -547,7 +568,7 @@ def _check_history(case):
             return []
     try:
         if case["how"] == "pipeline":
-            p.update_renames(dict(perm), update_from="current")
+            p.update_renames({**perm, **out_perm}, update_from="current")
         else:
             for f in p.functions:
                 ren = {a: b for a, b in perm.items() if a in f.parameters}
@@ -567,13 +588,13 @@ def _check_history(case):
         except dag.NotComputable:
             continue
         try:
-            got = p(o, **{cur[r]: f"v_{cur[r]}" for r in need})
+            got = p(out_perm.get(o, o), **{cur[r]: f"v_{cur[r]}" for r in need})
         except Exception as e:  # noqa: BLE001
-            bad.append(f"after calls and update_renames({perm}) in place: output {o} raised {type(e).__name__}: {str(e)[:120]}")
+            bad.append(f"after calls and update_renames({perm or out_perm}) in place: output {o} raised {type(e).__name__}: {str(e)[:120]}")
             continue
         if got != want:
-            bad.append(f"after calls and update_renames({perm}) in place ({case['cache_type']} cache): output {o} = {got!r}, "
-                       f"the original computes {want!r} for these inputs")
+            bad.append(f"after calls and update_renames({perm or out_perm}) in place ({case['cache_type']} cache): output {o} "
+                       f"(now called {out_perm.get(o, o)}) = {got!r}, the original computes {want!r} for these inputs")
     return bad[:4]
 
 
